@@ -1272,7 +1272,15 @@ func (d *drv) hookEngine() {
 				lv = [][]int64{}
 			}
 			d.installs++
-			d.tr.Emit(vt.Ev{"ev": "install", "old": in.OldID, "new": in.NewID, "levels": lv, "tabs": tabs, "nadd": len(in.Added), "ndel": len(in.Deleted)})
+			add, del := [][2]int64{}, [][2]int64{}
+			for _, t := range in.Added {
+				add = append(add, [2]int64{int64(t.Level), t.Num})
+			}
+			for _, t := range in.Deleted {
+				del = append(del, [2]int64{int64(t.Level), t.Num})
+			}
+			d.tr.Emit(vt.Ev{"ev": "install", "old": in.OldID, "new": in.NewID, "levels": lv, "tabs": tabs, "nadd": len(in.Added), "ndel": len(in.Deleted),
+				"add": add, "del": del, "hasrec": b2i(in.HasRec)})
 		},
 		Trace: func(_ uintptr, ev string, a []int64) {
 			switch ev {
